@@ -1,4 +1,4 @@
-\* random walks (-simulate -depth 81): 40 calls over all keys of length <= 2 over {0x00,a,b}; Phased balances the call classes
+\* random walks (-simulate -depth 83): 40 calls over all keys of length <= 2 over {0x00,a,b}; Phased balances the call classes
 CONSTANTS
   StoreKeys <- AllKeys
   Targets <- AllTargets
@@ -9,7 +9,6 @@ CONSTANTS
   Ops <- OpsAll
 INIT Init
 NEXT Next
-INVARIANT TypeOK
-INVARIANT ModelOK
+\* TypeOK/ModelOK are checked in the exhaustive configurations (the simulator would evaluate them on every generated successor)
 INVARIANT EmitBeh
 CHECK_DEADLOCK FALSE
